@@ -466,6 +466,9 @@ class Engine:
         from .tensor import PT
         if isinstance(v, PT):
             return v.boxed(self)
+        if isinstance(v, slice):
+            f = ufunc("slice3", Obj, Obj, Obj, Obj)
+            return f(self.box(v.start), self.box(v.stop), self.box(v.step))
         if isinstance(v, (set, frozenset)):
             return self.box(sorted(v, key=repr))
         if isinstance(v, range):
